@@ -78,9 +78,53 @@ template<class P> void run() {
     report(pn + "." + s.ev + "." + s.src + ".state", okstate && ((r&1)==(s.kind!=4)), "C02,C03", "ret=" + std::to_string(r) + " S=" + std::to_string(S) + " T=" + std::to_string(T));
   }
 }
+// ---- region order of exit / entry cascades and restart (C02, C03): a three-region machine used as a submachine and as a root ----
+struct e8{}; struct e9{};
+TAG(P1) TAG(P2) TAG(Q1) TAG(Q2) TAG(R1) TAG(R2) TAG(Out)
+template<class Tag> struct Sn : state<> {   // logs its name only
+  template<class E,class F> void on_entry(E const&, F&){ g_log += std::string("n:") + Tag::name() + " "; }
+  template<class E,class F> void on_exit (E const&, F&){ g_log += std::string("x:") + Tag::name() + " "; }
+};
+struct Reg_ : state_machine_def<Reg_> {
+  typedef Sn<P1_t> P1; typedef Sn<P2_t> P2; typedef Sn<Q1_t> Q1; typedef Sn<Q2_t> Q2; typedef Sn<R1_t> R1; typedef Sn<R2_t> R2;
+  typedef mpl::vector<P1,Q1,R1> initial_state;
+  struct transition_table : mpl::vector< Row<P1,e7,P2,none,none>, Row<Q1,e8,Q2,none,none>, Row<R1,e9,R2,none,none> > {};
+  template<class E,class F> void on_entry(E const&, F&){ g_log += "n:Reg "; }
+  template<class E,class F> void on_exit (E const&, F&){ g_log += "x:Reg "; }
+  template<class F,class Ev> void no_transition(Ev const&,F&,int){}
+};
+typedef BE<Reg_> Reg;
+struct Top_ : state_machine_def<Top_> {
+  typedef Sn<Out_t> Out;
+  typedef Reg initial_state;
+  struct transition_table : mpl::vector< Row<Reg,e5,Out,none,none>, Row<Out,e4,Reg,none,none> > {};
+  template<class F,class Ev> void no_transition(Ev const&,F&,int){ g_log += "NT "; }
+};
+typedef BE<Top_> Top;
+template<class M> static void drive(M& m, int mask){ if (mask&1) m.process_event(e7()); if (mask&2) m.process_event(e8()); if (mask&4) m.process_event(e9()); }
+static std::string exits(int mask){ return std::string(mask&1?"x:P2 ":"x:P1 ") + (mask&2?"x:Q2 ":"x:Q1 ") + (mask&4?"x:R2 ":"x:R1 ") + "x:Reg "; }
+static void run_regions() {
+  for (int mask = 0; mask < 8; ++mask) {
+    std::string id = std::to_string(mask);
+    { Top m; m.start(); drive(m, mask); g_log.clear(); m.process_event(e5());
+      report("regions.sub-exit.m" + id, g_log == exits(mask) + "n:Out ", "C02,C13", "got=[" + g_log + "] expected=[" + exits(mask) + "n:Out ]");
+      g_log.clear(); m.process_event(e4());
+      report("regions.sub-reentry.m" + id, g_log == "x:Out n:Reg n:P1 n:Q1 n:R1 ", "C02,C03,C13", "got=[" + g_log + "]"); }
+    { Reg m; g_log.clear(); m.start(); std::string first = g_log; int c0 = cur(m,0), c1 = cur(m,1), c2 = cur(m,2);
+      drive(m, mask); g_log.clear(); m.stop();
+      report("regions.root-stop.m" + id, g_log == exits(mask), "C02,C03,C13", "got=[" + g_log + "] expected=[" + exits(mask) + "]");
+      g_log.clear(); m.start();
+      bool ok = g_log == first && first == "n:Reg n:P1 n:Q1 n:R1 " && cur(m,0) == c0 && cur(m,1) == c1 && cur(m,2) == c2;
+      report("regions.root-restart.m" + id, ok, "C03,C02,C13", "got=[" + g_log + "] ids=" + std::to_string(cur(m,0)) + "," + std::to_string(cur(m,1)) + "," + std::to_string(cur(m,2)) + " initial=" + std::to_string(c0) + "," + std::to_string(c1) + "," + std::to_string(c2));
+      // and the restarted machine reacts from its initial states
+      g_log.clear(); m.process_event(e7());
+      report("regions.root-restart-reacts.m" + id, g_log == "x:P1 n:P2 ", "C03", "got=[" + g_log + "]"); }
+  }
+}
 int main(int argc, char** argv) {
   if (argc > 1) g_only = argv[1];
   run<msm::active_state_switch_after_entry>(); run<msm::active_state_switch_before_transition>();
   run<msm::active_state_switch_after_exit>(); run<msm::active_state_switch_after_transition_action>();
+  run_regions();
   return finish();
 }
